@@ -64,13 +64,17 @@ func specsBase() []*Spec {
 		},
 		{
 			ID:     "C17",
-			Units:  []Unit{{Pkg: "", Job: "C17", Quick: []string{"default", "force32bit", "386"}, Thorough: []string{"default", "force32bit", "386"}}},
+			Units: []Unit{{Pkg: "", Job: "C17", Quick: []string{"default", "force32bit", "386"}, Thorough: []string{"default", "force32bit", "386"}},
+				{Pkg: "", Job: "C17cpu", Quick: def, Thorough: def, Params: "cpus=3"}, {Pkg: "", Job: "C17cpu", Quick: def, Thorough: def, Params: "cpus=6"},
+				{Pkg: "", Job: "C17cpu", Quick: def, Thorough: def, Params: "cpus=7"}, {Pkg: "", Job: "C17cpu", Quick: def, Thorough: def, Params: "cpus=12"}},
 			Rule:   "E1: the multi-scalar routine called directly on heaps filled as VerifyBatch fills them (count 2n+1; quick n in {4..8,33,63,64}, thorough every n in 4..64) x 20 scalar profiles (hash-like, r=0/1/equal/one-nonzero/first-zero/max, S in top slice, common factors 2,3,4,6,8,2^64,3*2^100 so that the final Bos-Coster scalar is > 1, 56/112/168-bit maxima, 2^127, L-1) x point profiles (honest, same point, P/-P pairs, identity, mixed-order, all torsion) vs sum [s_i]P_i computed by the model through known discrete logs; E2: all sequences of <= 3 chunk sizes from {4,5,63,64} on one reused heap vs a fresh heap; vartime helpers on all pairs of limb-boundary values for every admissible limbSize vs big.Int; end to end with the fallback hook: all-valid batches of sizes 4..200 (quick: 32 sizes around chunk boundaries) x 4 compositions x 3 variants x entropy {zero, 4 DRBG, 0xff, const}: accepted with zero fallbacks (degenerate constant streams reported, not required). non-trivial = collection not all-zero.",
 			Assume: append(trusted, "points are supplied through UnpackVartime and read back through Pack (decided by C10)"),
 		},
 		{
 			ID:     "C06",
-			Units:  []Unit{{Pkg: "", Job: "C06", Quick: def, Thorough: []string{"default", "force32bit", "386"}}},
+			Units: []Unit{{Pkg: "", Job: "C06", Quick: def, Thorough: []string{"default", "force32bit", "386"}},
+				{Pkg: "", Job: "C06cpu", Quick: def, Thorough: def, Params: "cpus=3"}, {Pkg: "", Job: "C06cpu", Quick: def, Thorough: def, Params: "cpus=5"},
+				{Pkg: "", Job: "C06cpu", Quick: def, Thorough: def, Params: "cpus=6"}, {Pkg: "", Job: "C06cpu", Quick: def, Thorough: def, Params: "cpus=12"}},
 			Rule:   "E1 (deviation = number of bad entries): batch length n in {0..9,62..69,126..131,192,193,200} x 6 option sets (3 variants x default/ZIP-215); level 0: all-good x 5 entropy streams (2 DRBG, zero, 0xff, counter); level 1: 15 bad kinds (wrong message, R/S/key bit flip, S+L, valid S in [2^252,L), small-order key/R, undecodable key/R, key 31/nil, signature 63/nil, bad pre-hash or nil message) at every position (n<=9) or at interesting positions {0..3,61..67,125..131,n-4..n-1}; level 2: position pairs x kind pairs (n<=8 all pairs; larger n interesting pairs); thorough adds level 3 for n<=8; unsupported hash selector. E2 (chunk sequences): all sequences of <= 3 full chunks over 7 chunk kinds (fast path, S>=L without fallback, fallback by bad signature / malformed key at last slot / small-order R at slot 0 / bad pre-hash, early break by short signature) x remainder 0..3 x remainder kind; last chunk compared with the same chunk as first chunk of a fresh call. Oracle: per entry well-formedness AND ref.Verify == implementation's single verification == batch entry; summary == AND; len(valid)==n; err==nil. Invalid entries only under DRBG entropy.",
 			Assume: append(trusted, "when an entry is invalid the statement allows failure with probability < 2^-120 over the entropy stream: DRBG streams (seeded by VERIF_SEED) are used as fixed alphabet members"),
 		},
@@ -154,24 +158,24 @@ func specsBase() []*Spec {
 // ruleAddenda: what the enumerations gained after the rounds of independently written changes
 // (DESIGN 12.1); appended to the rule text of the evidence.
 var ruleAddenda = map[string]string{
-	"C02": "Sign == RFC 8032 for EVERY message length 0..8320 (and windows at 16384/32768/65536) under pure, a 1-byte and a 255-byte context; 17 argument coincidences (message = key, seed, signature, dom2 label, context, ...). Very long messages as C01; held results (70 signatures and keys kept, each used as the caller's buffer).",
-	"C04": "The accepted twin (S mod L) as the neighbour of every S >= L entry, with and without a failing equation elsewhere in the chunk. Compensating pairs (S_i + d, S_j - d) at every pair of positions of batches of 4..9 and the chunk-edge pairs of 64..133.",
+	"C02": "Sign == RFC 8032 for EVERY message length 0..8320 (and windows at 16384/32768/65536) under pure, a 1-byte and a 255-byte context; 17 argument coincidences (message = key, seed, signature, dom2 label, context, ...). Very long messages as C01; held results (70 signatures and keys kept, each used as the caller's buffer). Context x message plane (1..255 x 0..320; thorough 0..1100); caller buffers refilled between signing calls.",
+	"C04": "The accepted twin (S mod L) as the neighbour of every S >= L entry, with and without a failing equation elsewhere in the chunk. Compensating pairs (S_i + d, S_j - d) at every pair of positions of batches of 4..9 and the chunk-edge pairs of 64..133. (c') S + kL under 16 KiB .. 70000-byte messages.",
 	"C12": "Keys constructed from chosen conversion results (one non-zero byte, k / p-k, 2^k+-1, all ones with one hole). Held conversion results.",
 	"C01": "variant dimension of 6 (incl. 255-byte contexts and ph under the ctx variant's context); dimension Rrel (signature carries (-x,y) / (x,-y) of the point the equation yields); honest inputs signed by the model. Dense message lengths: every length 0..8320 and windows at 16384/32768/65536 x {pure, 1-byte ctx, 255-byte ctx} x {honest, +1, +32, -1, first/last byte} single and in a batch of 5 with one-byte neighbours. Very long messages: multiples of 2^18 up to 8 MiB (thorough 24 MiB), inner bytes changed around MiB boundaries. Crossed histories: K1 honest, then K1 xor mask (every bit, every value of bytes 0 and 31) signed with K1's scalar over the new bytes.",
-	"C03": "S = (r + h a) mod L evaluated as sign() does on all triples of a scalar boundary alphabet, per configuration; later-chunk positions. Calls in flight: k = 1..6, 8 batches of own signatures parked in their entropy readers while others run.",
+	"C03": "S = (r + h a) mod L evaluated as sign() does on all triples of a scalar boundary alphabet, per configuration; later-chunk positions. Calls in flight: k = 1..6, 8 batches of own signatures parked in their entropy readers while others run. Variant sequences sharing a context.",
 	"C05": "the heterogeneous batch shapes also in default mode (neighbours stay accepted, the entry gets the default verdict). Dense message lengths (every 4th) as C01.",
-	"C06": "arguments handed over as consecutive slices of one buffer (two calls out of three) with a changed-byte check, result vector overwritten after each call; level 1e: entropy sources answering with 1/16/17/100/1000 bytes per call x bad positions in every chunk; homogeneous chunks; runs of one bad entry; cross-variant and model-signed wrong-length-digest entries. Level big (255..1025 entries, thorough 65537; bad entries where 8/16-bit indices wrap); level dense-len (every prefix length P: signature over P bytes with a P+1 / P+32 byte message among one-byte neighbours); level near-dup (a bad entry as the spoilt copy of its honest neighbour, 5 forms, with/without forced fallback). Level crossed (16 mixed-up readings of neighbouring entries); level compensating (pairs and triples whose errors cancel under equal randomisers); level env (every GOMAXPROCS 1..64, 96, 128, 256; k = 0..6, 8 calls in flight).",
-	"C07": "digest-length sweep in batches of 70 and 140 at the first/last positions of every batched chunk; hash selectors 0..24, 64, 200, 2^31; homogeneous batches. Refusal x content: 8 refused option sets x 11 signature/key contents x 3 APIs. Re-entrant reader: inner verification and signature under another context with a fresh Options value or a struct copy of the used template.",
-	"C09": "runs of one small-order entry across a chunk boundary; small-order entry before/after a malformed entry (key31, sig63, msg63) in the first and a later chunk. Buffer-reuse section (14 torsion encodings written into the buffer an honest key / R was verified from).",
-	"C10": "constructed y whose square-root check value has one non-zero byte at each position, or the same byte at positions i and i+4k; points with tiny x.",
-	"C11": "constructed (scalar, point) pairs for chosen results: one non-zero byte per position, two equal bytes at (i,j), u = k and p-k (k < 64), u around every limb boundary of both layouts; the one-bit / byte-0 / byte-31 value neighbourhood of the base point; re-slices of Basepoint; carry-run scalars (runs of 7/8/15/0 of limb-like length with the digit below sending or not sending a carry); input arrays intact; results fresh. First-step family: a limb of E = AA - BB of the first ladder step at a wrap point of a24. The harness appends to the exported Basepoint slice before anything else; held X25519 results.",
+	"C06": "arguments handed over as consecutive slices of one buffer (two calls out of three) with a changed-byte check, result vector overwritten after each call; level 1e: entropy sources answering with 1/16/17/100/1000 bytes per call x bad positions in every chunk; homogeneous chunks; runs of one bad entry; cross-variant and model-signed wrong-length-digest entries. Level big (255..1025 entries, thorough 65537; bad entries where 8/16-bit indices wrap); level dense-len (every prefix length P: signature over P bytes with a P+1 / P+32 byte message among one-byte neighbours); level near-dup (a bad entry as the spoilt copy of its honest neighbour, 5 forms, with/without forced fallback). Level crossed (16 mixed-up readings of neighbouring entries); level compensating (pairs and triples whose errors cancel under equal randomisers); level env (every GOMAXPROCS 1..64, 96, 128, 256; k = 0..6, 8 calls in flight). Levels long-msg, huge (2^22 + 68 entries); calls in flight up to 257; cpus units (taskset 3, 5, 6, 12).",
+	"C07": "digest-length sweep in batches of 70 and 140 at the first/last positions of every batched chunk; hash selectors 0..24, 64, 200, 2^31; homogeneous batches. Refusal x content: 8 refused option sets x 11 signature/key contents x 3 APIs. Re-entrant reader: inner verification and signature under another context with a fresh Options value or a struct copy of the used template. Many-contexts (17000 / 70000 distinct contexts between two uses of one).",
+	"C09": "runs of one small-order entry across a chunk boundary; small-order entry before/after a malformed entry (key31, sig63, msg63) in the first and a later chunk. Buffer-reuse section (14 torsion encodings written into the buffer an honest key / R was verified from). Fold look-alikes of every torsion encoding in an earlier chunk.",
+	"C10": "constructed y whose square-root check value has one non-zero byte at each position, or the same byte at positions i and i+4k; points with tiny x. Check values whose words add up to a power of two.",
+	"C11": "constructed (scalar, point) pairs for chosen results: one non-zero byte per position, two equal bytes at (i,j), u = k and p-k (k < 64), u around every limb boundary of both layouts; the one-bit / byte-0 / byte-31 value neighbourhood of the base point; re-slices of Basepoint; carry-run scalars (runs of 7/8/15/0 of limb-like length with the digit below sending or not sending a carry); input arrays intact; results fresh. First-step family: a limb of E = AA - BB of the first ladder step at a wrap point of a24. The harness appends to the exported Basepoint slice before anything else; held X25519 results. Length-truncation (2^k + 32 bytes); scalar / point buffers refilled between calls.",
 	"C13": "canaries with spare capacity, content-intact comparison per content class, aliasing, malformed kinds key64/key0/msg-huge, hash selectors 0..40, 63..65, 200, 2^16, 2^31, 2^32-1 through Sign and VerifyBatch. Identical malformed neighbours and uniformly malformed batches. Every GOMAXPROCS 1..64, 96, 128, 256 x malformed entries in full chunks.",
-	"C14": "spare-capacity independence of every returned slice; transient-error readers; every pair of byte positions x {same mask at both, +1/-1} for Equal on public and private keys. crypto/rand.Reader replaced by a recorded stream: 3000 (thorough 70000) GenerateKey(nil) calls. Hand-off reader (buffer filled by another goroutine after the caller's stack moved); held results.",
-	"C15": "results overwritten to their capacity after every call; refused-then-sentinel histories (12 refusals x 8 sentinels); shared-Options operations; buffer-reuse histories (11 families x 3 content variants written into the same caller buffers, sequences of 2, thorough 3); fill-perturb-recheck histories (1..8 keys, 10 perturbing calls); depth-4 (thorough 6) histories over 6 operations; goroutines started by the library are recognised and never scheduled. Long runs (each operation 1030 times; thorough 66000); 10 refused operations x 6 operations under way as concurrent scenarios. Calls in flight (child mode parked); sandwich histories A, d-1 fillers, B (d around 256; thorough around 65536; GC on and off).",
+	"C14": "spare-capacity independence of every returned slice; transient-error readers; every pair of byte positions x {same mask at both, +1/-1} for Equal on public and private keys. crypto/rand.Reader replaced by a recorded stream: 3000 (thorough 70000) GenerateKey(nil) calls. Hand-off reader (buffer filled by another goroutine after the caller's stack moved); held results. Typed-nil reader; returned keys overwritten in place, then derived again.",
+	"C15": "results overwritten to their capacity after every call; refused-then-sentinel histories (12 refusals x 8 sentinels); shared-Options operations; buffer-reuse histories (11 families x 3 content variants written into the same caller buffers, sequences of 2, thorough 3); fill-perturb-recheck histories (1..8 keys, 10 perturbing calls); depth-4 (thorough 6) histories over 6 operations; goroutines started by the library are recognised and never scheduled. Long runs (each operation 1030 times; thorough 66000); 10 refused operations x 6 operations under way as concurrent scenarios. Calls in flight (child mode parked); sandwich histories A, d-1 fillers, B (d around 256; thorough around 65536; GC on and off). Streak histories (2..33 failing calls, then each sentinel); calls in flight up to 257.",
 	"C16": "dirty-output pass (result must not depend on the output variable's prior content); carry-run scalars on the fixed-base path; all 7 configurations in the quick tier. Dense recodings (periodic bit patterns of period <= 8/11, +-1; every signed odd digit at spacing w and w+1). Stack-position sweep of the fixed-base multiplication (every 8-byte depth up to 72 KB); 8 configurations.",
-	"C17": "every multi-scalar case also into an output point holding [4+n]B; reuse sequences share heap and output point and put r=0 / r=1 chunks after a general chunk; end to end: fallback offsets of mixed batches == the chunks holding a bad entry. All-valid batches over every message length 0..8327 x 3 variants: no fallback. Parallel section: 5 histories of refused calls, then two all-valid batches of 1536 at the same time: no fallback.",
+	"C17": "every multi-scalar case also into an output point holding [4+n]B; reuse sequences share heap and output point and put r=0 / r=1 chunks after a general chunk; end to end: fallback offsets of mixed batches == the chunks holding a bad entry. All-valid batches over every message length 0..8327 x 3 variants: no fallback. Parallel section: 5 histories of refused calls, then two all-valid batches of 1536 at the same time: no fallback. cpus units (taskset 3, 6, 7, 12).",
 	"C18": "dirty-output pass; reducing and after-basic forms on one-level unreduced operands on either side. Small-constant multipliers x limbs at the constants' wrap points floor(m*2^w/k).",
 	"C19": "dirty-output pass. Constructed remainders: q*L + r and a*(r/a) for r = rho mod L, rho over limb-class values of both layouts in [0, 3L).",
 	"C08": "layer-level transcripts for modm and ge25519; X25519 constructed results (u = k, p-k, powers of 256) and carry-run scalars. Constructed-remainder transcript class (expand-remainder). Base-point product at every stack depth (transcript class x25519-base-stack); 8th configuration 386+force64bit.",
-	"C20": "advisory trace of the generic X25519 ladder (library code since fix F5). Signing scenarios over 22 message lengths (0..2^20) and 3 context lengths.",
+	"C20": "advisory trace of the generic X25519 ladder (library code since fix F5). Signing scenarios over 22 message lengths (0..2^20) and 3 context lengths. Equal on 32, 40, 63, 65, 96, 128-byte keys.",
 }
